@@ -505,6 +505,21 @@ def observe_iiv(spec):
     return (f"(CIivSub {sterm_list(names)} {ct.nat(off)} {ot})", {'n_out': len(out), 'n': len(names), 'fixed': len(fixed)})
 
 
+def observe_iov(spec):
+    """iovsearch.wf_etas_removal with the subsets the tool passes (non_empty_proper_subsets of the IOV parameters,
+    non_empty_subsets of the IIV parameters); the task inputs hold the etas to remove and the candidate number"""
+    iov = impl('pharmpy.tools.iovsearch.tool')
+    names = spec['names']
+    gen = iov.non_empty_proper_subsets if spec['proper'] else iov.non_empty_subsets
+    wf = iov.wf_etas_removal(iov.remove_iov if spec['proper'] else iov.remove_iiv, None, gen(names), spec['i'])
+    out = [(t.task_input[3], list(t.task_input[2])) for t in wf.tasks if t.function is iov.create_candidate_model_entry]
+    assert all(t.task_input[0] is (iov.remove_iov if spec['proper'] else iov.remove_iiv) for t in wf.tasks
+               if t.function is iov.create_candidate_model_entry)
+    ot = '[' + ';'.join(f'({ct.nat(no)}, {sterm_list(p)})' for no, p in out) + ']'
+    return (f"(CIov {sterm_list(names)} {ct.boolean(spec['proper'])} {ct.nat(spec['i'])} {ot})",
+            {'n_out': len(out), 'n': len(names)})
+
+
 IIV_SHAPES = [
     {'periph': 0, 'remove': [], 'joint': [], 'fix': []},
     {'periph': 0, 'remove': [], 'joint': [['ETA_CL', 'ETA_VC']], 'fix': []},
@@ -556,6 +571,10 @@ def observe(spec):
         return observe_teq(spec)
     if kind == 'lnt':
         return observe_lnt(spec)
+    if kind == 'parse':
+        return observe_parse(spec)
+    if kind == 'iov':
+        return observe_iov(spec)
     if kind == 'allowed':
         return observe_allowed(spec)
     raise ValueError('unknown spec kind ' + str(kind))
@@ -585,6 +604,12 @@ def gen_specs(rng, tier):
         specs.append(gen_teq_spec(rng))
     for _ in range(60 if tier == 'quick' else 800):
         specs.append(gen_lnt_spec(rng))
+    specs += gen_parse_specs(rng, 200 if tier == 'quick' else 2500)
+    for n in range(0, 6 if tier == 'quick' else 9):
+        names = [f'ETA_IOV_{k}_1' for k in range(1, n + 1)]
+        rng.shuffle(names)
+        specs.append({'kind': 'iov', 'names': names, 'proper': True, 'i': rng.choice([2, 2, 5])})
+        specs.append({'kind': 'iov', 'names': [f'ETA_{k}' for k in range(1, n + 1)], 'proper': False, 'i': rng.choice([2, 9, 40])})
     shapes = IIV_SHAPES[:7] if tier == 'quick' else IIV_SHAPES
     for sh in shapes:
         specs.append({'kind': 'iivblock', 'offset': rng.choice([0, 0, 3, 17]), **sh})
@@ -639,6 +664,11 @@ def distribution(kept, verdicts, infos):
             for t in set(v):
                 if t in names:
                     guards[names[t]] = guards.get(names[t], 0) + 1
+    d['reference_parser_outcomes'] = {}
+    for s, i in zip(kept, infos):
+        if s['kind'] == 'parse':
+            o = i.get('parse_outcome', '?')
+            d['reference_parser_outcomes'][o] = d['reference_parser_outcomes'].get(o, 0) + 1
     d['mfl_families'] = fam
     d['mfl_implementation_errors'] = errs
     d['guard_false_counts'] = guards
@@ -822,6 +852,95 @@ def gen_teq_spec(rng):
     if rng.random() < 0.5:
         rng.shuffle(b[0])
     return {'kind': 'teq', 't1': a, 't2': b}
+
+
+_lark_parser = {}
+
+
+def observe_parse(spec):
+    """the real lark parse + MFLInterpreter (the two steps of parse._parse before validate_mfl_list) of a text,
+    exported as generic statements NAME[?](args) with the attributes in declaration order"""
+    import dataclasses
+    c18 = _c18()
+    gm = impl('pharmpy.tools.mfl.grammar')
+    im = impl('pharmpy.tools.mfl.interpreter')
+    from lark import Lark
+    from pharmpy.tools.mfl.statement.definition import Let
+    from pharmpy.tools.mfl.statement.feature.covariate import Covariate, Ref
+    from pharmpy.tools.mfl.statement.feature.symbols import Name, Wildcard
+    if 'p' not in _lark_parser:
+        _lark_parser['p'] = Lark(gm.grammar, start='start', parser='lalr', propagate_positions=False,
+                                 maybe_placeholders=False, debug=False, cache=True)
+    text = spec['text']
+
+    def st(x):
+        return c18.sterm(x) + '%N'
+    if any(ord(ch) > 126 for ch in text):
+        raise Unexportable('non-ascii text')
+
+    def arg(v):
+        if isinstance(v, Wildcard):
+            return 'AWild'
+        if isinstance(v, Ref):
+            return f'(ARef {st(v.name)})'
+        if isinstance(v, str):
+            return f'(AVals [IWord {st(v)}])'
+        if not isinstance(v, tuple):
+            raise Unexportable(f'attribute {v!r}')
+        its = []
+        for x in v:
+            if isinstance(x, Name):
+                its.append(f'IWord {st(x.name)}')
+            elif isinstance(x, str):
+                its.append(f'IWord {st(x)}')
+            elif isinstance(x, int) and not isinstance(x, bool):
+                its.append(f'INum {x}%N')
+            else:
+                raise Unexportable(f'element {x!r}')
+        return '(AVals [' + ';'.join(its) + '])'
+
+    def stmt(stm):
+        name = type(stm).__name__.upper()
+        if isinstance(stm, Let):
+            return f'(mkS {st("LET")} false [AVals [IWord {st(stm.name)}]; {arg(stm.value)}])'
+        if isinstance(stm, Covariate):
+            return (f'(mkS {st(name)} {ct.boolean(stm.optional.option)} '
+                    f'[{arg(stm.parameter)}; {arg(stm.covariate)}; {arg(stm.fp)}; {arg(stm.op)}])')
+        return f'(mkS {st(name)} false [' + '; '.join(arg(getattr(stm, f.name)) for f in dataclasses.fields(stm)) + '])'
+    try:
+        tree = _lark_parser['p'].parse(text)
+        stmts = im.MFLInterpreter().interpret(tree)
+        obs, outcome = '(Some [' + '; '.join(stmt(x) for x in stmts) + '])', 'accepted'
+    except Unexportable:
+        raise
+    except Exception as e:     # lark's UnexpectedToken / UnexpectedCharacters ...
+        obs, outcome = 'None', type(e).__name__
+    return f'(CParse {st(text)} {obs})', {'n_out': 1, 'n': len(text), 'parse_outcome': outcome}
+
+
+def gen_parse_specs(rng, n):
+    """well-formed texts from the grammar-based generator and a malformed stream (one edit each)"""
+    texts = []
+    while len(texts) < n:
+        s = gen_mfl_spec(rng, rng.choice(['pk', 'pk_wild', 'cov', 'pd', 'mixed']))
+        texts += [s['a'], s['b']]
+    out = [{'kind': 'parse', 'text': t} for t in texts[:n]]
+    for t in texts[:n // 2]:
+        k = rng.choice(['del', 'ins', 'ins', 'swap', 'space', 'newline'])
+        i = rng.randrange(len(t))
+        if k == 'del':
+            m = t[:i] + t[i + 1:]
+        elif k == 'ins':
+            m = t[:i] + rng.choice('()[],;*?@.1A-_+ ') + t[i:]
+        elif k == 'swap' and i + 1 < len(t):
+            m = t[:i] + t[i + 1] + t[i] + t[i + 2:]
+        elif k == 'space':
+            m = t[:i] + ' ' + t[i:]
+        else:
+            m = t.replace(';', '\n', 1)
+        if m:
+            out.append({'kind': 'parse', 'text': m, 'mutated': True})
+    return out
 
 
 def observe_lnt(spec):
